@@ -14,7 +14,15 @@ MANIFEST = dict(
     technique="Lean 4 proof over a hand-written model + differential correspondence run with real witness child processes",
     design="5/C20",
 )
-GEN: list[str] = ["HostEnv", "Cli", "Legacy"]
+GEN: list[str] = []
+# not stated by the property text (DESIGN 9.9): the library's default environment, the command line, the legacy paths
+SUPP_GEN = ["HostEnv", "Cli", "Legacy"]
+SUPP_THEOREMS = [
+    "c20_host_translated", "c20_default_env_sound", "c20_default_env_complete", "c20_nothing_else_leaks",
+    "c20_child_env_exact", "c20_cli_defaults", "c20_cli_value_option", "c20_cli_flags", "c20_cli_missing_value",
+    "c20_cli_discovery_first", "c20_cli_discovery_none", "c20_cli_decision", "c20_cli_nothing_launched",
+    "c20_cli_launch_exact", "c20_legacy_translated", "c20_legacy_aliases_same_object",
+]
 THEOREMS = [
     "c20_load_configured",
     "c20_launch_exact",
@@ -28,10 +36,6 @@ THEOREMS = [
     "c20_path_command_verbatim",
     "c20_executable_independent_of_host",
     "c20_unresolvable_not_launched",
-    "c20_host_translated", "c20_default_env_sound", "c20_default_env_complete", "c20_nothing_else_leaks",
-    "c20_child_env_exact", "c20_cli_defaults", "c20_cli_value_option", "c20_cli_flags", "c20_cli_missing_value",
-    "c20_cli_discovery_first", "c20_cli_discovery_none", "c20_cli_decision", "c20_cli_nothing_launched",
-    "c20_cli_launch_exact", "c20_legacy_translated", "c20_legacy_aliases_same_object",
 ]
 RULE = (
     "generated configuration documents (1..4 servers; every 5th document uses BARE command names: copies of one witness "
@@ -741,9 +745,7 @@ class HostEnv(Suite):
     SUPPLEMENTARY: what the library's default environment contains is the library's definition, not part of the
     property text; a difference here is reported in the evidence notes, not as a violation."""
     name = "hostenv"
-
-    def __init__(self):
-        self.mismatches = []
+    supplementary = True
 
     def cases(self, ctx, budget):
         rng = ctx.sub_rng("c20-hostenv", budget)
@@ -765,9 +767,7 @@ class HostEnv(Suite):
         return {"m": "host", "op": "env", "win32": bool(case.get("win32")), "parent": case["parent"]}
 
     def compare(self, case, o, m):
-        if o["env"] != m["env"] and len(self.mismatches) < 5:
-            self.mismatches.append({"case": case, "impl": o, "model": m})
-        return None
+        return None if o["env"] == m["env"] else f"default environment {o['env']!r}, model {m['env']!r}"
 
     def kind(self, case, o):
         e = o.get("env") or {}
@@ -852,9 +852,7 @@ class Cli(Suite):
     """`__main__.main()` driven through `sys.argv` in a scratch cwd / HOME, against `Model.Host.act` + `cliLaunch`
     (option table, defaults and default locations regenerated from the source)."""
     name = "cli"
-
-    def __init__(self):
-        self.mismatches = []
+    supplementary = True
 
     def cases(self, ctx, budget):
         rng = ctx.sub_rng("c20-cli", budget)
@@ -914,9 +912,9 @@ class Cli(Suite):
         b = sorted(_launch_key({"cmd": _model_cmd(l["argv"][0]), "argv": l["argv"][1:], "env": l["env"]}) for l in m["launches"])
         want_exit = {"usage": [2], "no-config": [1], "list": ["returned", 0, 1], "test": [0, 1]}[m["action"]]
         if a != b:
-            return "launches differ"
-        if o["exit"] not in want_exit and len(self.mismatches) < 5:
-            self.mismatches.append({"case": case, "exit": o["exit"], "model": m["action"]})   # exit status: informational
+            return f"launches differ (model action {m['action']})"
+        if o["exit"] not in want_exit:
+            return f"exit status {o['exit']!r}, model action {m['action']}"
         return None
 
     def oracle(self, case, o):
@@ -966,20 +964,5 @@ class Cli(Suite):
             yield dict(case, present={k: v for k, v in case["present"].items() if k != loc})
 
 
-_SUPP: list = []
-
-
-def extra(ctx, tier):
-    """supplementary correspondences: differences are informational (evidence notes), see EXTEND rule 3"""
-    for s in _SUPP:
-        n = len(getattr(s, "mismatches", []))
-        if n and tier != "search":
-            print(f"# C20 supplementary correspondence '{s.name}' differs from the model on {n}+ input(s) (informational): "
-                  + canon(s.mismatches[0])[:300])
-        ctx.notes.append(f"supplementary correspondence '{s.name}': {n} difference(s) between implementation and model"
-                         + (": " + canon(s.mismatches[0])[:600] if n else ""))
-
-
 def suites():
-    _SUPP[:] = [HostEnv(), Cli()]
-    return [Entry()] + _SUPP
+    return [Entry(), HostEnv(), Cli()]
